@@ -185,6 +185,9 @@ func init() {
 		if err := root.ParseString(c04Schema()); err != nil {
 			panic(err)
 		}
+		// the printed form must not depend on Go's map iteration order
+		ggql.Sort = true
+		defer func() { ggql.Sort = false }()
 		n := 6000
 		if tier == "thorough" {
 			n = 250000
